@@ -60,7 +60,7 @@ static int nreq, g_active, g_quiet, g_closing, in_call, saw_event, g_watch_fd;
 static char* beh[MAXBEH]; static int nbeh, cbn;
 static char** scr_s; static char** scr_c; static char** scr_g; static int n_s, n_c, n_g, p_s, p_c, p_g;
 static FILE *slog, *clog_, *glog, *evlog; static char *slog_b, *clog_b, *glog_b, *ev_b; static size_t slog_n, clog_n, glog_n, ev_n;
-static int listener = -1, lport, ulistener = -1;
+static int listener = -1, lport, ulistener = -1, cport;
 static char upath[160], missing[160], overlong[512], regfile[160];
 /* write2 part */
 static int w_fd = -1; static FILE* wlog; static char* wlog_b; static size_t wlog_n; static int w_logged;
@@ -179,12 +179,7 @@ static void do_ops(char* ops, int in_cb) {
           break;
         }
         if (tok[1] == 'l') a.sin_port = htons(lport);
-        else {
-          int s = socket(AF_INET, SOCK_STREAM, 0); struct sockaddr_in b; socklen_t bl = sizeof b;
-          memset(&b, 0, sizeof b); b.sin_family = AF_INET; b.sin_addr.s_addr = htonl(INADDR_LOOPBACK);
-          bind(s, (struct sockaddr*) &b, sizeof b); getsockname(s, (struct sockaddr*) &b, &bl); close(s);
-          a.sin_port = b.sin_port;
-        }
+        else a.sin_port = htons(cport);   /* bound by the harness, never listening: refused, and nobody else can take it */
         q = &reqs[nreq]; q->id = nreq; nreq++;
         in_call = 1; r = uv_tcp_connect(&q->req, &h.tcp, (struct sockaddr*) &a, connect_cb); in_call = 0;
         printf("u%d:%d ", q->id, r);
@@ -379,6 +374,10 @@ int main(int argc, char** argv) {
   if (bind(listener, (struct sockaddr*) &a, sizeof a) || listen(listener, 128) ||
       getsockname(listener, (struct sockaddr*) &a, &al)) { fprintf(stderr, "no loopback\n"); return 2; }
   lport = ntohs(a.sin_port);
+  { int cs = socket(AF_INET, SOCK_STREAM, 0); struct sockaddr_in b; socklen_t bl = sizeof b;
+    memset(&b, 0, sizeof b); b.sin_family = AF_INET; b.sin_addr.s_addr = htonl(INADDR_LOOPBACK);
+    if (bind(cs, (struct sockaddr*) &b, sizeof b) || getsockname(cs, (struct sockaddr*) &b, &bl)) { fprintf(stderr, "no loopback\n"); return 2; }
+    cport = ntohs(b.sin_port); }
   snprintf(upath, sizeof upath, "%s/cl%d", g_dir, (int) getpid());
   snprintf(missing, sizeof missing, "%s/missing%d", g_dir, (int) getpid());
   snprintf(regfile, sizeof regfile, "%s/file%d", g_dir, (int) getpid());
